@@ -301,16 +301,3 @@ def nontrivial(fn, arg, out):
     return out[0] == 0 and bool(out[1][0] or out[1][1] or out[1][3] or out[1][8])
 
 from props.c03_oracle import oracle
-
-# ----------------------------------------------------------------------------------------
-# known finding C03-F2: INTEGERS / STRINGS assign interpreter.vars[name] directly, without the "already declared" check
-# of ENTRY / FUNCTION (and of BibTeX): re-declaring a variable, a function or even a built-in is accepted silently
-def _sig_redeclare(kind, fn, arg, detail):
-    import re
-    return kind == 'oracle' and isinstance(detail, str) and bool(
-        re.match(r'(INTEGERS|STRINGS) re-declaring the name \S+ must be reported as a BibTeX error; the run succeeded$', detail))
-KNOWN_SIGNATURES = {'C03-F2': _sig_redeclare}
-
-def replay_known(finding):
-    arg = norm(finding['pinned']['arg'])
-    return oracle(1, arg, impl_run(arg))
